@@ -131,6 +131,7 @@ def in_memory_ts(names):
     return (X, y)
 
 
+MEM = ("mem-same", "mem-copy", "mem-y-edited", "mem-X-edited")
 FITTED = ("fitted", "refitted", "retract-fitted", "fitted-unusual")
 
 
@@ -241,8 +242,8 @@ def one_curve(rec, rng, cid, tsets, xproc):
             k = int(rng.choice([0, 0, 4, 8]))
             cfg = {"regressor": (REGS + ["Extra Trees"] * 3 + NONE)[
                 int(rng.integers(13))],
-                "ts": (list(tsets) + ["mem-same", "mem-copy"])[
-                    int(rng.integers(len(tsets) + 2))],
+                "ts": (list(tsets) + list(MEM))[
+                    int(rng.integers(len(tsets) + len(MEM)))],
                 "names": None if k == 0 else sorted(
                     allnames[i] for i in rng.permutation(len(allnames))[:k]),
                 "lda": [None, None, False, True][int(rng.integers(4))]}
@@ -250,16 +251,26 @@ def one_curve(rec, rng, cid, tsets, xproc):
         # names must contain at least one continuous feature for training
         if names is not None and not any("_con_" in n for n in names):
             names = cfg["names"] = names + ["feat_con_apr_sum"]
-        if cfg["ts"] in ("mem-same", "mem-copy"):
-            if prev is not None and prev.get("ts") == cfg["ts"] and \
+        if cfg["ts"] in MEM:
+            if prev is not None and prev.get("ts") in MEM and \
                     prev.get("names") == names and "_mem" in prev:
                 base_ts = prev["_mem"]
             else:
                 base_ts = in_memory_ts(names)
-            ts_val = base_ts if cfg["ts"] == "mem-same" else \
-                (base_ts[0].copy(), base_ts[1].copy())
+            if cfg["ts"] == "mem-same":
+                ts_val = base_ts
+            elif cfg["ts"] == "mem-copy":
+                ts_val = (base_ts[0].copy(), base_ts[1].copy())
+            elif cfg["ts"] == "mem-y-edited":
+                # same samples, other responses (only one array differs)
+                ts_val = (base_ts[0].copy(),
+                          np.clip(10 - base_ts[1], 0, 10))
+            else:
+                Xe = base_ts[0].copy()
+                Xe[:, 0] = Xe[:, 0] * 1.5 + .1
+                ts_val = (Xe, base_ts[1].copy())
             cfg["_mem"] = base_ts
-            ts_key = "mem"
+            ts_key = "mem" if cfg["ts"] in MEM[:2] else cfg["ts"]
         else:
             ts_val, ts_key = tsets[cfg["ts"]]
         # the caller may list the feature names in any order
@@ -343,7 +354,7 @@ def one_curve(rec, rng, cid, tsets, xproc):
             if idnt.fit_properties else "none"
         if not isnone:
             rec.event("cache decisions judged")
-            mem = ("mem-same", "mem-copy")
+            mem = MEM[:2]
             # in-memory training sets are equal by VALUE whether the same
             # objects or equal copies are passed (same names -> same matrix)
             same_ts = prev is not None and (
